@@ -15,12 +15,12 @@ open Gozod.Cont
 /-- after the fix, on a non-nil input, the checks change nothing about HOW the container is validated. -/
 theorem runOw_eq_run (cfg : Cfg) (env : Env) (n : Node) (v : V) (hc : cfg.owValidates = true)
     (hv : v.isNilLike = false) : runOw cfg env n v = run cfg env n v := by
-  simp [runOw, owBypass, hc, hv]
+  simp [runOw, owBypass, hc]
 
 /-- without an overwrite check the pre-pass never fires, whatever the tree. -/
 theorem runOw_eq_run_noOverwrite (cfg : Cfg) (env : Env) (n : Node) (v : V)
     (ho : hasOverwrite (nodeChecks n) = false) (hv : v.isNilLike = false) : runOw cfg env n v = run cfg env n v := by
-  simp [runOw, owBypass, ho, hv]
+  simp [runOw, owBypass, ho]
 
 /-- a failing `Refine` rejects, wherever it stands among the checks and whatever the members say. -/
 theorem sizeOK_custom_false (cs : List SizeCk) (n : Nat) (h : SizeCk.custom false ∈ cs) : sizeOK cs n = false := by
@@ -68,15 +68,20 @@ theorem runOw_issues_sub (cfg : Cfg) (env : Env) (n : Node) (v : V) (hv : v.isNi
   unfold runOw at hi
   by_cases hb : owBypass cfg n v = true
   · simp [hb, Res.issues] at hi
-  · simpa [hb, hv] using hi
+  · simpa [hb] using hi
 
-/-- **refinements run on an accepted nil** (open finding `refinement-runs-on-nil`, C03's class seen through a container):
-    `Map(K, V).Refine(func(map[any]any) bool { return true }).Nilable().Parse(nil)` is rejected. -/
-theorem c02_refine_on_nil_false :
-    (runOw {} (fun _ v => .ok v) (.map { nilable := true } none none [.custom true]) .nil).isOk = false
-      ∧ (runOw {} (fun _ v => .ok v) (.map { nilable := true } none none []) .nil).isOk = true
-      ∧ (runOw {} (fun _ v => .ok v) (.object { nilable := true } [] .strip none {} [.custom false]) .nil).isOk = true := by
+/-- **witness for the code before /repo 7db47f1** (refinements ran on an accepted nil):
+    `Map(K, V).Refine(func(map[any]any) bool { return true }).Nilable().Parse(nil)` was rejected, `Object{}.Refine(false)` let nil through. -/
+theorem c02_refine_on_nil_legacy :
+    (runOwNilLegacy {} (fun _ v => .ok v) (.map { nilable := true } none none [.custom true]) .nil).isOk = false
+      ∧ (runOwNilLegacy {} (fun _ v => .ok v) (.map { nilable := true } none none []) .nil).isOk = true
+      ∧ (runOwNilLegacy {} (fun _ v => .ok v) (.object { nilable := true } [] .strip none {} [.custom false]) .nil).isOk = true := by
   decide
+
+/-- since 7db47f1: a nil the container lets through is accepted whatever refinements are attached. -/
+theorem c02_nil_ignores_refinements (cfg : Cfg) (env : Env) (n : Node) (v : V) (hv : v.isNilLike = true) :
+    runOw cfg env n v = run cfg env n v := by
+  simp [runOw, owBypass, hv]
 
 end Gozod.C02
 
